@@ -872,7 +872,7 @@ var c11fmtOpts = &parse.Options{AllowDoubleUnderscoreNames: true}
 // exec runs one text through every stage and records its class.
 func (e *c11env) exec(c *c11case, alwaysLeg2 bool) (reached string) {
 	rc := e.rc
-	if len(c.src) > c11maxSrc {
+	if len(c.src) > c11maxSrc && c.family != "mega" {
 		c.src = c.src[:c11maxSrc]
 		c.desc += " (cut to the size bound)"
 	}
@@ -1769,6 +1769,16 @@ var c11edges = []string{
 	"S:pub func foo.w32?(dst: base.io_writer) {\n    args.dst.write_u32be?(a: 7)\n}",
 	"S:pub func foo.w64?(dst: base.io_writer) {\n    args.dst.write_u64le?(a: 7)\n    args.dst.write_u8?(a: 7)\n}",
 	"S:pub func foo.isz() base.bool {\n    return this.x == 0\n}",
+	// status messages that differ but map to the same C identifier
+	"R:pub status \"#a b\"\npub status \"#a_b\"\npub struct foo?()\n",
+	"R:pub status \"#a-b\"\npub status \"#a.b\"\npub struct foo?()\n",
+	"R:pub status \"#too much\"\npub status \"#too  much\"\npub struct foo?()\n",
+	"R:pub status \"#Ab\"\npub status \"#ab\"\npub struct foo?()\n",
+	"R:pub status \"@x y\"\npub status \"#x y\"\npub status \"$x y\"\npub struct foo?()\n",
+	"R:pri status \"#p q\"\npub status \"#p_q\"\npub struct foo?()\n",
+	// labels reused by sequential and by nested loops
+	"S:pub func foo.lab!() {\n    while.again this.x < 3 {\n        this.x += 1\n        if this.x == 2 {\n            break.again\n        }\n    }.again\n    while.again this.x < 9 {\n        this.x += 1\n        if this.x == 7 {\n            continue.again\n        }\n    }.again\n}",
+	"S:pub func foo.lab2!() {\n    while.again this.x < 3 {\n        this.x += 1\n        while.again this.x < 2 {\n            this.x += 1\n            break.again\n        }.again\n    }.again\n}",
 	// struct fields of struct type: declaration order and cycles, through 0..3 array levels
 	"R:pub struct outer?(\n    c : inner,\n)\n\npub struct inner?(\n    x : base.u8,\n)\n",
 	"R:pub struct outer?(\n    c : array[2] inner,\n)\n\npub struct inner?(\n    x : base.u8,\n)\n",
@@ -2353,6 +2363,37 @@ func C11D(rc *vk.Rec) {
 			src, k, d := c11synthDeep(r)
 			c = c11alone(phase, idx, "deep", k, d, []byte(src))
 		}
+		e.exec(c, false)
+	}
+	rc.Finish()
+
+	// nesting by the million (megabytes of text): the recursion of the parser
+	// must be bounded by the parser itself, not by the goroutine stack
+	phase = "mega"
+	e.budget("mega", 1, 1, 100, 100)
+	megas := []struct{ kind, open, mid, close string }{
+		{"mega-parens", "(", "1", ")"},
+		{"mega-unary-not", "not ", "true", ""},
+		{"mega-unary-minus", "- ", "1", ""},
+		{"mega-array-type", "array[1] ", "base.u8", ""},
+		{"mega-index", "this.a[", "0", "]"},
+		{"mega-call", "this.f(a: ", "1", ")"},
+		{"mega-ptr-type", "ptr ", "base.u8", ""},
+		{"mega-slice-type", "slice ", "base.u8", ""},
+	}
+	for idx := int64(0); idx < int64(len(megas)); idx++ {
+		if rc.SkipCase(phase, idx) || (rc.Only < 0 && int(idx)%rc.NShards != rc.Shard) {
+			continue
+		}
+		m := megas[idx]
+		const n = 3000000
+		var sb strings.Builder
+		if strings.Contains(m.kind, "type") {
+			sb.WriteString("pub struct foo?(\n    x : " + strings.Repeat(m.open, n) + m.mid + ",\n)\n")
+		} else {
+			sb.WriteString(c11prelude + "\npub func foo.bar!() {\n    this.x = " + strings.Repeat(m.open, n) + m.mid + strings.Repeat(m.close, n) + "\n}\n")
+		}
+		c := c11alone(phase, idx, "mega", m.kind, fmt.Sprintf("%d levels", n), []byte(sb.String()))
 		e.exec(c, false)
 	}
 	rc.Finish()
